@@ -35,7 +35,22 @@ type fn struct {
 	callees               []*fn
 	mayPanic              bool
 	results               []types.Type
-	text                  string // the generated Definition
+	text                  string       // the generated Definition
+	sp                    *spec        // abstraction directives (nil or empty for closed integer functions)
+	named                 []*types.Var // named results (locals initialised to zero values)
+	hasLoop               bool
+}
+
+// stateVars: what a call leaves behind besides its results: the assigned receiver fields, then the
+// @out locations.
+func (f *fn) stateVars() []*fieldRef {
+	l := f.mutFields()
+	if f.sp != nil {
+		for _, o := range f.sp.outs {
+			l = append(l, &fieldRef{path: []string{o.name}, typ: o.typ, coq: o.coq})
+		}
+	}
+	return l
 }
 
 func (f *fn) sortedFields() []*fieldRef {
@@ -99,11 +114,16 @@ func isBool(t types.Type) bool {
 	return ok && (b.Kind() == types.Bool || b.Kind() == types.UntypedBool)
 }
 
+// isError: the predeclared type error; modelled as bool (true = non-nil).
+func isError(t types.Type) bool {
+	return t != nil && types.Identical(t, types.Universe.Lookup("error").Type())
+}
+
 func coqType(t types.Type) (string, bool) {
 	if _, ok := intSuffix(t); ok {
 		return "Z", true
 	}
-	if isBool(t) {
+	if isBool(t) || isError(t) {
 		return "bool", true
 	}
 	return "", false
@@ -129,6 +149,10 @@ type nBind struct { // match call with Panic _ => Panic st | Ret pat => body end
 	body          node
 }
 type nLeaf struct{ term string }
+type nLoop struct { // go_loop fuel (fun st => cond) (fun st next brk => body) (fun st => exit) Diverge st
+	fuel, pat, tuple, cond, next, brk string
+	body, exit                        node
+}
 
 func printNode(sb *strings.Builder, n node, ind string) {
 	switch n := n.(type) {
@@ -139,7 +163,7 @@ func printNode(sb *strings.Builder, n node, ind string) {
 		fmt.Fprintf(sb, "%sif %s then Panic %s else\n", ind, n.cond, n.st)
 		printNode(sb, n.body, ind)
 	case *nBind:
-		fmt.Fprintf(sb, "%smatch %s with\n%s| Panic _ => Panic %s\n%s| Ret %s =>\n", ind, n.call, ind, n.st, ind, n.pat)
+		fmt.Fprintf(sb, "%smatch %s with\n%s| Panic _ => Panic %s\n%s| Diverge => Diverge\n%s| Ret %s =>\n", ind, n.call, ind, n.st, ind, ind, n.pat)
 		printNode(sb, n.body, ind+"  ")
 		fmt.Fprintf(sb, "\n%send", ind)
 	case *nIf:
@@ -150,6 +174,12 @@ func printNode(sb *strings.Builder, n node, ind string) {
 		fmt.Fprintf(sb, "\n%s)", ind)
 	case *nLeaf:
 		fmt.Fprintf(sb, "%s%s", ind, n.term)
+	case *nLoop:
+		fmt.Fprintf(sb, "%sgo_loop %s\n%s  (fun %s => %s)\n%s  (fun %s %s %s =>\n", ind, n.fuel, ind, n.pat, n.cond, ind, n.pat, n.next, n.brk)
+		printNode(sb, n.body, ind+"    ")
+		fmt.Fprintf(sb, ")\n%s  (fun %s =>\n", ind, n.pat)
+		printNode(sb, n.exit, ind+"    ")
+		fmt.Fprintf(sb, ")\n%s  Diverge\n%s  %s", ind, ind, n.tuple)
 	default:
 		panic("unknown node")
 	}
@@ -174,6 +204,8 @@ type tr struct {
 	assumePanic bool
 	nodes       int
 	touched     map[string]string // rel file -> why
+	breakK      []func() node     // innermost first: continuation of `break`
+	contK       []func() node     // continuation of `continue`
 }
 
 var reserved = map[string]bool{}
@@ -181,8 +213,8 @@ var reserved = map[string]bool{}
 func init() {
 	for _, w := range strings.Fields(`as at cofix else end exists exists2 fix for forall fun if IF in let match mod return
 		Prop Set SProp Type then using where with by lazymatch multimatch
-		Z bool nat true false negb andb orb tt unit Ret Panic outcome fst snd pair Some None option list nil cons
-		go_quot go_rem go_and go_or go_xor go_andnot go_len go_tz`) {
+		Z bool nat true false negb andb orb tt unit Ret Panic Diverge outcome fst snd pair Some None option list nil cons length
+		go_quot go_rem go_and go_or go_xor go_andnot go_len go_tz go_loop go_nth go_popcount popcnt8 popcnt16 popcnt32 popcnt64`) {
 		reserved[w] = true
 	}
 	for _, s := range []string{"i8", "i16", "i32", "i64", "u8", "u16", "u32", "u64"} {
@@ -204,6 +236,12 @@ func (t *tr) fail(pos token.Pos, format string, args ...any) {
 func (t *tr) info() *types.Info { return t.f.pkg.info }
 
 func (t *tr) alloc(obj types.Object, hint string) string {
+	if obj != nil {
+		// a declaration that is translated again (duplicated continuation) keeps its name
+		if n, ok := t.names[obj]; ok {
+			return n
+		}
+	}
 	base := hint
 	if base == "" || base == "_" {
 		base = "arg"
@@ -244,11 +282,17 @@ func (t *tr) touch(pos token.Pos, why string) {
 	if _, ok := t.touched[rel]; !ok {
 		t.touched[rel] = why
 	}
+	if h, ok := t.ld.cOrigin[pos]; ok {
+		hr := t.ld.relName(h)
+		if _, ok := t.touched[hr]; !ok {
+			t.touched[hr] = "C header: value of " + why
+		}
+	}
 }
 
 // panic state: the current values of the mutated receiver fields (or tt)
 func (t *tr) stateTerm() string {
-	m := t.f.mutFields()
+	m := t.f.stateVars()
 	if len(m) == 0 {
 		return "tt"
 	}
@@ -447,6 +491,22 @@ func (t *tr) arith(pos token.Pos, op token.Token, T types.Type, x, y string, yEx
 }
 
 func (t *tr) expr(e ast.Expr) (string, []pre) {
+	// abstraction directives first
+	if b := t.f.findBind(e); b != nil {
+		return b.coq, nil
+	}
+	if b := t.f.findOut(e); b != nil {
+		return b.coq, nil
+	}
+	if l := t.f.findListLen(e); l != nil {
+		return fmt.Sprintf("(Z.of_nat (length %s))", l.coq), nil
+	}
+	if l, idx := t.f.findListGet(e); l != nil {
+		// slice indexing: out of range panics
+		x, pres := t.expr(idx)
+		pres = append(pres, pre{guard: fmt.Sprintf("((%s <? 0) || (%s >=? Z.of_nat (length %s)))", x, x, l.coq)})
+		return fmt.Sprintf("(go_nth %s %s)", l.coq, x), pres
+	}
 	tv, ok := t.info().Types[e]
 	if !ok {
 		t.fail(e.Pos(), "no type information for expression")
@@ -555,6 +615,7 @@ var bitsMap = map[string]string{
 	"LeadingZeros": "lzcnt64", "LeadingZeros8": "lzcnt8", "LeadingZeros16": "lzcnt16", "LeadingZeros32": "lzcnt32", "LeadingZeros64": "lzcnt64",
 	"TrailingZeros": "tzcnt64", "TrailingZeros8": "tzcnt8", "TrailingZeros16": "tzcnt16", "TrailingZeros32": "tzcnt32", "TrailingZeros64": "tzcnt64",
 	"Len": "len64", "Len8": "len8", "Len16": "len16", "Len32": "len32", "Len64": "len64",
+	"OnesCount": "popcnt64", "OnesCount8": "popcnt8", "OnesCount16": "popcnt16", "OnesCount32": "popcnt32", "OnesCount64": "popcnt64",
 }
 
 // calleeOf resolves the function object of a call and its receiver expression (nil for plain and
@@ -613,8 +674,8 @@ func (t *tr) isNoOp(obj types.Object) bool {
 // wlCall builds the application of a whitelisted callee; results: Coq term of the call, pres of
 // the arguments, callee.
 func (t *tr) wlCall(e *ast.CallExpr, callee *fn, recvExpr ast.Expr) (string, []pre) {
-	if len(callee.muts) != 0 {
-		t.fail(e.Pos(), "call to %s, which assigns receiver fields, from another translated function is not supported", callee.name)
+	if len(callee.stateVars()) != 0 {
+		t.fail(e.Pos(), "call to %s, which assigns receiver fields or @out locations, from another translated function is not supported", callee.name)
 	}
 	if e.Ellipsis.IsValid() {
 		t.fail(e.Pos(), "variadic call not supported")
@@ -638,8 +699,64 @@ func (t *tr) wlCall(e *ast.CallExpr, callee *fn, recvExpr ast.Expr) (string, []p
 			}
 		}
 	}
+	// the callee's abstraction parameters: each of its @bind / @list expressions, with the callee's
+	// formal parameters (and receiver) replaced by the actual arguments, must be a directive of the
+	// same kind of the caller, whose parameter is passed on
+	ren := map[string]string{}
+	csig := callee.obj.Type().(*types.Signature)
+	if len(e.Args) != csig.Params().Len() {
+		t.fail(e.Pos(), "call to %s with %d arguments, %d expected", callee.name, len(e.Args), csig.Params().Len())
+	}
+	for i, a := range e.Args {
+		if txt, ok := exprText(a); ok {
+			ren[csig.Params().At(i).Name()] = txt
+		}
+	}
+	if recvExpr != nil && callee.recvObj != nil {
+		if txt, ok := exprText(recvExpr); ok {
+			ren[callee.recvObj.Name()] = txt
+		}
+	}
+	if callee.sp != nil {
+		for _, b := range callee.sp.binds {
+			want := renameText(b.pat, ren)
+			var mine *bindSpec
+			if t.f.sp != nil {
+				for _, c := range t.f.sp.binds {
+					if c.text == want {
+						mine = c
+					}
+				}
+			}
+			if mine == nil {
+				t.fail(e.Pos(), "%s abstracts %s; the caller needs a directive  @bind <name> = %s", callee.name, b.text, want)
+			}
+			parts = append(parts, mine.coq)
+		}
+		for _, l := range callee.sp.lists {
+			var mine *listSpec
+			if t.f.sp != nil {
+				for _, c := range t.f.sp.lists {
+					if (l.lenPat == nil || c.lenText == renameText(l.lenPat, ren)) && (l.getPat == nil || c.getText == renameText(l.getPat, ren)) {
+						mine = c
+					}
+				}
+			}
+			if mine == nil {
+				t.fail(e.Pos(), "%s abstracts the slice %s; the caller needs matching @list directives", callee.name, l.name)
+			}
+			parts = append(parts, mine.coq)
+		}
+	}
 	var pres []pre
-	for _, a := range e.Args {
+	for i, a := range e.Args {
+		if _, ok := coqType(csig.Params().At(i).Type()); !ok {
+			// a parameter the callee only uses through its directives (pointer, struct, ...)
+			if _, ok := exprText(a); !ok || callee.sp.empty() {
+				t.fail(a.Pos(), "argument of unsupported type %s", csig.Params().At(i).Type())
+			}
+			continue
+		}
 		x, p := t.expr(a)
 		parts = append(parts, x)
 		pres = append(pres, p...)
@@ -731,7 +848,7 @@ func (t *tr) multiCall(e ast.Expr, n int) (call string, pres []pre, callee *fn) 
 
 func (t *tr) retNode(terms []string) node {
 	l := append([]string{}, terms...)
-	for _, r := range t.f.mutFields() {
+	for _, r := range t.f.stateVars() {
 		l = append(l, r.coq)
 	}
 	var s string
@@ -751,6 +868,9 @@ func (t *tr) retNode(terms []string) node {
 
 // lhs resolves an assignable operand to the Coq name that is (re)bound.
 func (t *tr) lhs(e ast.Expr, define bool) string {
+	if b := t.f.findOut(e); b != nil {
+		return b.coq
+	}
 	switch x := unparen(e).(type) {
 	case *ast.Ident:
 		if x.Name == "_" {
@@ -806,7 +926,14 @@ func (t *tr) stmt(s ast.Stmt, k func() node) node {
 		n := len(t.f.results)
 		if len(s.Results) == 0 {
 			if n != 0 {
-				t.fail(s.Pos(), "bare return in a function with results (named results are not supported)")
+				if len(t.f.named) != n {
+					t.fail(s.Pos(), "bare return in a function with unnamed results")
+				}
+				var cur []string
+				for _, v := range t.f.named {
+					cur = append(cur, t.names[v])
+				}
+				return t.retNode(cur)
 			}
 			return t.retNode(nil)
 		}
@@ -828,12 +955,35 @@ func (t *tr) stmt(s ast.Stmt, k func() node) node {
 		}
 		var terms []string
 		var pres []pre
-		for _, r := range s.Results {
+		for i, r := range s.Results {
+			if isError(t.f.results[i]) {
+				terms = append(terms, t.errExpr(r))
+				continue
+			}
 			x, p := t.expr(r)
 			terms = append(terms, x)
 			pres = append(pres, p...)
 		}
 		return t.wrapPre(pres, t.retNode(terms))
+	case *ast.BranchStmt:
+		if s.Label != nil {
+			t.fail(s.Pos(), "labelled %s is not supported", s.Tok)
+		}
+		switch s.Tok {
+		case token.BREAK:
+			if len(t.breakK) == 0 {
+				t.fail(s.Pos(), "break outside switch/for")
+			}
+			return t.breakK[len(t.breakK)-1]()
+		case token.CONTINUE:
+			if len(t.contK) == 0 {
+				t.fail(s.Pos(), "continue outside for")
+			}
+			return t.contK[len(t.contK)-1]()
+		}
+		t.fail(s.Pos(), "%s is not supported", s.Tok)
+	case *ast.ForStmt:
+		return t.forStmt(s, k)
 	case *ast.ExprStmt:
 		ce, ok := unparen(s.X).(*ast.CallExpr)
 		if !ok {
@@ -933,6 +1083,172 @@ func (t *tr) stmt(s ast.Stmt, k func() node) node {
 	return nil
 }
 
+// errExpr: a value of type error as a bool (true = non-nil): nil, a variable, or a call that a
+// @nonnil directive declares to yield a non-nil error (its arguments are not translated).
+func (t *tr) errExpr(e ast.Expr) string {
+	e = unparen(e)
+	if tv, ok := t.info().Types[e]; ok && tv.IsNil() {
+		return "false"
+	}
+	switch x := e.(type) {
+	case *ast.Ident:
+		if v, ok := t.info().Uses[x].(*types.Var); ok {
+			if n, ok := t.names[v]; ok && isError(v.Type()) {
+				return n
+			}
+		}
+	case *ast.CallExpr:
+		if t.f.sp != nil && matchAny(t.f.sp.nonnils, x.Fun) {
+			return "true"
+		}
+	}
+	t.fail(e.Pos(), "error value of this form is not supported (nil, an error variable, or a call declared @nonnil)")
+	return ""
+}
+
+// assignedIn: the Coq names (locals declared outside the node, assigned receiver fields, @out
+// locations) assigned inside the given statements, in order of first assignment.
+func (t *tr) assignedIn(nodes ...ast.Node) []string {
+	var names []string
+	seen := map[string]bool{}
+	add := func(e ast.Expr, define bool) {
+		var name string
+		if b := t.f.findOut(e); b != nil {
+			name = b.coq
+		} else if id, ok := unparen(e).(*ast.Ident); ok {
+			if id.Name == "_" {
+				return
+			}
+			if define && t.info().Defs[id] != nil {
+				return // declared inside
+			}
+			v, ok := t.info().Uses[id].(*types.Var)
+			if !ok {
+				return
+			}
+			n, ok := t.names[v]
+			if !ok {
+				return // declared inside the loop (not yet named) or not a local: reported when translated
+			}
+			name = n
+		} else if path, _, ok := fieldChain(t.info(), t.f.recvObj, e); ok {
+			if r := t.f.fields[strings.Join(path, ".")]; r != nil {
+				name = r.coq
+			}
+		}
+		if name != "" && !seen[name] {
+			seen[name] = true
+			names = append(names, name)
+		}
+	}
+	for _, n := range nodes {
+		if n == nil {
+			continue
+		}
+		ast.Inspect(n, func(x ast.Node) bool {
+			switch s := x.(type) {
+			case *ast.AssignStmt:
+				for _, l := range s.Lhs {
+					add(l, s.Tok == token.DEFINE)
+				}
+			case *ast.IncDecStmt:
+				add(s.X, false)
+			}
+			return true
+		})
+	}
+	return names
+}
+
+// forStmt:  for i := lo; i < hi; i++ { body }  with i not assigned in the body and hi not depending
+// on anything the loop assigns.  Translated with the fuelled combinator go_loop (GoSem.v); the fuel
+// S (hi - lo) is one more than the number of iterations, so the Diverge outcome is unreachable
+// (proved where the generated function is used, never assumed).
+func (t *tr) forStmt(s *ast.ForStmt, k func() node) node {
+	bad := func(why string) {
+		t.fail(s.Pos(), "only loops of the form  for i := lo; i < hi; i++  are supported (%s)", why)
+	}
+	init, ok := s.Init.(*ast.AssignStmt)
+	if !ok || init.Tok != token.DEFINE || len(init.Lhs) != 1 || len(init.Rhs) != 1 {
+		bad("init statement")
+	}
+	ivar, ok := init.Lhs[0].(*ast.Ident)
+	if !ok {
+		bad("init statement")
+	}
+	cond, ok := s.Cond.(*ast.BinaryExpr)
+	if !ok || cond.Op != token.LSS {
+		bad("condition")
+	}
+	if cid, ok := unparen(cond.X).(*ast.Ident); !ok || cid.Name != ivar.Name {
+		bad("condition")
+	}
+	post, ok := s.Post.(*ast.IncDecStmt)
+	if !ok || post.Tok != token.INC {
+		bad("post statement")
+	}
+	if pid, ok := unparen(post.X).(*ast.Ident); !ok || pid.Name != ivar.Name {
+		bad("post statement")
+	}
+	t.f.hasLoop = true
+	t.sawPanic = true // the result type must have the Diverge alternative
+	return t.stmt(init, func() node {
+		iname := t.names[t.info().Defs[ivar]]
+		for _, n := range t.assignedIn(s.Body) {
+			if n == iname {
+				bad("the loop variable is assigned in the body")
+			}
+		}
+		carried := t.assignedIn(s.Body, s.Post)
+		isCarried := map[string]bool{}
+		for _, c := range carried {
+			isCarried[c] = true
+		}
+		hi, hpres := t.expr(cond.Y)
+		if len(hpres) != 0 {
+			bad("the bound can panic")
+		}
+		// the bound must not mention anything the loop assigns
+		ast.Inspect(cond.Y, func(x ast.Node) bool {
+			if e, ok := x.(ast.Expr); ok {
+				if b := t.f.findOut(e); b != nil && isCarried[b.coq] {
+					bad("the bound depends on a location assigned in the loop")
+				}
+				if id, ok := e.(*ast.Ident); ok {
+					if v, ok := t.info().Uses[id].(*types.Var); ok && isCarried[t.names[v]] {
+						bad("the bound depends on a variable assigned in the loop")
+					}
+				}
+				if path, _, ok := fieldChain(t.info(), t.f.recvObj, e); ok {
+					if r := t.f.fields[strings.Join(path, ".")]; r != nil && isCarried[r.coq] {
+						bad("the bound depends on a field assigned in the loop")
+					}
+				}
+			}
+			return true
+		})
+		tuple := carried[0]
+		pat := carried[0]
+		if len(carried) > 1 {
+			tuple = "(" + strings.Join(carried, ", ") + ")"
+			pat = "'" + tuple
+		}
+		next, brk := t.fresh("next"), t.fresh("break")
+		kNext := func() node {
+			return t.stmt(post, func() node { return t.count(&nLeaf{term: next + " " + tuple}) })
+		}
+		t.breakK = append(t.breakK, func() node { return t.count(&nLeaf{term: brk + " " + tuple}) })
+		t.contK = append(t.contK, kNext)
+		body := t.block(s.Body.List, kNext)
+		t.breakK = t.breakK[:len(t.breakK)-1]
+		t.contK = t.contK[:len(t.contK)-1]
+		exit := k()
+		return t.count(&nLoop{
+			fuel: fmt.Sprintf("(S (Z.to_nat (%s - %s)))", hi, iname), pat: pat, tuple: tuple,
+			cond: fmt.Sprintf("(%s <? %s)", iname, hi), next: next, brk: brk, body: body, exit: exit})
+	})
+}
+
 func (t *tr) allocChecked(id *ast.Ident, obj types.Object) string {
 	if _, ok := coqType(obj.Type()); !ok {
 		t.fail(id.Pos(), "variable %s has unsupported type %s", id.Name, obj.Type())
@@ -944,6 +1260,25 @@ func (t *tr) assign(s *ast.AssignStmt, k func() node) node {
 	switch s.Tok {
 	case token.DEFINE, token.ASSIGN:
 		define := s.Tok == token.DEFINE
+		if len(s.Lhs) == len(s.Rhs) && len(s.Lhs) == 1 && t.f.sp != nil {
+			dropped := matchAny(t.f.sp.drops, s.Lhs[0])
+			if id, ok := unparen(s.Lhs[0]).(*ast.Ident); ok && define && t.f.sp.opaques[id.Name] {
+				if obj := t.info().Defs[id]; obj != nil {
+					if _, ok := coqType(obj.Type()); ok {
+						t.fail(id.Pos(), "@opaque %s: the variable has a supported type, translate it instead", id.Name)
+					}
+					dropped = true
+				}
+			}
+			if dropped {
+				r := s.Rhs[0]
+				tv := t.info().Types[r]
+				if !(tv.IsNil() || tv.Value != nil || matchAny(t.f.sp.pures, r) || t.f.findBind(r) != nil || t.pureArg(r)) {
+					t.fail(r.Pos(), "right-hand side of a dropped assignment must be nil, a constant, a variable or declared @pure")
+				}
+				return k()
+			}
+		}
 		if len(s.Lhs) == len(s.Rhs) && len(s.Lhs) == 1 {
 			x, pres := t.expr(s.Rhs[0])
 			name := t.lhs(s.Lhs[0], define)
@@ -1035,8 +1370,8 @@ func (t *tr) switchStmt(s *ast.SwitchStmt, k func() node) node {
 		cc := c.(*ast.CaseClause)
 		for _, st := range cc.Body {
 			ast.Inspect(st, func(n ast.Node) bool {
-				if b, ok := n.(*ast.BranchStmt); ok {
-					t.fail(b.Pos(), "%s inside switch is not supported", b.Tok)
+				if b, ok := n.(*ast.BranchStmt); ok && b.Tok == token.FALLTHROUGH {
+					t.fail(b.Pos(), "fallthrough is not supported")
 				}
 				return true
 			})
@@ -1073,7 +1408,9 @@ func (t *tr) switchStmt(s *ast.SwitchStmt, k func() node) node {
 		thn := t.block(arms[i].body, k)
 		return t.count(&nIf{cond: arms[i].cond, thn: thn, els: build(i + 1)})
 	}
+	t.breakK = append(t.breakK, k) // break leaves the switch: the statements after it follow
 	body := build(0)
+	t.breakK = t.breakK[:len(t.breakK)-1]
 	if bindTag {
 		body = t.count(&nLet{name: tagVar, term: tag, body: body})
 	}
@@ -1088,13 +1425,9 @@ func (t *tr) resultType() string {
 		c, _ := coqType(r)
 		l = append(l, c)
 	}
-	for range t.f.mutFields() {
-		l = append(l, "Z")
-	}
-	for i, r := range t.f.mutFields() {
-		if isBool(r.typ) {
-			l[len(t.f.results)+i] = "bool"
-		}
+	for _, r := range t.f.stateVars() {
+		c, _ := coqType(r.typ)
+		l = append(l, c)
 	}
 	var a string
 	switch len(l) {
@@ -1109,12 +1442,9 @@ func (t *tr) resultType() string {
 		return a
 	}
 	var m []string
-	for _, r := range t.f.mutFields() {
-		if isBool(r.typ) {
-			m = append(m, "bool")
-		} else {
-			m = append(m, "Z")
-		}
+	for _, r := range t.f.stateVars() {
+		c, _ := coqType(r.typ)
+		m = append(m, c)
 	}
 	var st string
 	switch len(m) {
@@ -1148,6 +1478,23 @@ func translate(ld *loader, f *fn, wl map[types.Object]*fn, globalNames map[strin
 		c, _ := coqType(r.typ)
 		params = append(params, fmt.Sprintf("(%s : %s)", r.coq, c))
 	}
+	// abstraction parameters: @bind, @list, @out (whitelist order)
+	if f.sp != nil {
+		for _, b := range f.sp.binds {
+			b.coq = t.alloc(nil, b.name)
+			c, _ := coqType(b.typ)
+			params = append(params, fmt.Sprintf("(%s : %s)", b.coq, c))
+		}
+		for _, l := range f.sp.lists {
+			l.coq = t.alloc(nil, l.name)
+			params = append(params, fmt.Sprintf("(%s : list Z)", l.coq))
+		}
+		for _, b := range f.sp.outs {
+			b.coq = t.alloc(nil, b.name)
+			c, _ := coqType(b.typ)
+			params = append(params, fmt.Sprintf("(%s : %s)", b.coq, c))
+		}
+	}
 	sig := f.obj.Type().(*types.Signature)
 	i := 0
 	for _, fld := range f.decl.Type.Params.List {
@@ -1155,6 +1502,10 @@ func translate(ld *loader, f *fn, wl map[types.Object]*fn, globalNames map[strin
 			v := sig.Params().At(i)
 			c, ok := coqType(v.Type())
 			if !ok {
+				if !f.sp.empty() {
+					i++
+					continue
+				}
 				t.fail(fld.Pos(), "parameter of unsupported type %s", v.Type())
 			}
 			params = append(params, fmt.Sprintf("(%s : %s)", t.alloc(nil, "arg"), c))
@@ -1164,6 +1515,12 @@ func translate(ld *loader, f *fn, wl map[types.Object]*fn, globalNames map[strin
 		for _, nm := range fld.Names {
 			v := sig.Params().At(i)
 			c, ok := coqType(v.Type())
+			if !ok && !f.sp.empty() {
+				// a parameter that is only used through the directives (pointer, struct, ...): it does
+				// not become a Coq parameter; any direct use is rejected where it occurs
+				i++
+				continue
+			}
 			if !ok {
 				t.fail(nm.Pos(), "parameter %s of unsupported type %s", nm.Name, v.Type())
 			}
@@ -1175,16 +1532,29 @@ func translate(ld *loader, f *fn, wl map[types.Object]*fn, globalNames map[strin
 			i++
 		}
 	}
-	if f.decl.Type.Results != nil {
-		for _, fld := range f.decl.Type.Results.List {
-			if len(fld.Names) != 0 {
-				t.fail(fld.Pos(), "named results are not supported")
-			}
-		}
-	}
 	for _, r := range f.results {
 		if _, ok := coqType(r); !ok {
 			t.fail(f.decl.Pos(), "result of unsupported type %s", r)
+		}
+	}
+	// named results are locals that start at their zero value
+	type zinit struct{ name, zero string }
+	var zinits []zinit
+	f.named = nil
+	if f.decl.Type.Results != nil {
+		for _, fld := range f.decl.Type.Results.List {
+			for _, nm := range fld.Names {
+				obj, _ := t.info().Defs[nm].(*types.Var)
+				if obj == nil || nm.Name == "_" {
+					t.fail(nm.Pos(), "blank or unresolved named result")
+				}
+				zero := "0"
+				if c, _ := coqType(obj.Type()); c == "bool" {
+					zero = "false"
+				}
+				zinits = append(zinits, zinit{t.alloc(obj, nm.Name), zero})
+				f.named = append(f.named, obj)
+			}
 		}
 	}
 	body := t.block(f.decl.Body.List, func() node {
@@ -1193,6 +1563,9 @@ func translate(ld *loader, f *fn, wl map[types.Object]*fn, globalNames map[strin
 		}
 		return t.retNode(nil)
 	})
+	for i := len(zinits) - 1; i >= 0; i-- {
+		body = &nLet{name: zinits[i].name, term: zinits[i].zero, body: body}
+	}
 	var sb strings.Builder
 	fmt.Fprintf(&sb, "Definition %s", f.coq)
 	for _, p := range params {
